@@ -269,6 +269,9 @@ GradImpl(sp, f, x) ==
          LET g == GradImpl(sp, Arg(f), MatVec(f.v, x)) IN
          IF IsTok(g) THEN g
          ELSE Strict([j \in 1..n |-> QSumSeq([i \in 1..n |-> QMul(f.v[(i - 1) * n + j], g[i])])])
+    [] f.op = "CompPow" -> \* chain rule with PowerOperator(k).derivative(x) = k * MultiplyOperator(x^(k-1)) (self-adjoint)
+         LET g == GradImpl(sp, Arg(f), RPow(x, f.s[1])) IN
+         IF IsTok(g) THEN g ELSE RMul(RScal(QI(f.s[1]), RPow(x, f.s[1] - 1)), g)
     [] f.op = "Prod" ->    \* right(x) * left.gradient(x) + left(x) * right.gradient(x)
          LET g1 == GradImpl(sp, Arg(f), x)  g2 == GradImpl(sp, Arg2(f), x)
              a == Val(sp, Arg(f), x)  b == Val(sp, Arg2(f), x) IN
